@@ -267,32 +267,38 @@ func c01Seam(c XCfg, mode string, j *rt.Job, rng *rt.Rand, r *rt.Rec) {
 	switch mode {
 	case "seam-sign":
 		windows := j.Bool("windows")
-		for i := uint32(0); i < n; i++ {
-			if windows {
-				// tall tree, quick tier: sign 1024-leaf windows around 0, n/4, n/2, 3n/4 and the end
-				q4 := n / 4
-				if pos := i % q4; i < n-1024 && pos == 512 {
-					i += q4 - 1024
-					k.SetIndex(i)
-				}
+		way := "sign"
+		if windows {
+			way = "windows"
+		}
+		one := func(i uint32, jumped bool) bool {
+			if jumped {
+				k.SetIndex(i)
 			}
-			if !assert(k, i, XCase{Way: map[bool]string{false: "sign", true: "jump"}[windows], Salt: "seam"}) {
-				return
+			if !assert(k, i, XCase{Way: way, Salt: "seam"}) {
+				return false
 			}
 			sig, err := k.Sign(msgFor(c, i, "seam"))
-			if err != nil || sigIndex(sig) != i || !bytes.Equal(sig[2180:], ref.Auth(i)) {
-				r.Violate(fmt.Sprintf("C01/auth-path-in-sig/h=%d", c.H), fmt.Sprintf("signature at index %d embeds a wrong authentication path or index (%s)", i, c), XCase{Kind: "c01auth", Cfg: c, Way: "sign", Idx: i, Salt: "seam"}, "", "")
-				return
+			if err != nil || sigIndex(sig) != i || !bytes.Equal(sig[2180:], ref.Auth(i)) || !bytes.Equal(k.GetRoot(), ref.Root) {
+				r.Violate(fmt.Sprintf("C01/auth-path-in-sig/h=%d", c.H), fmt.Sprintf("signature at index %d embeds a wrong authentication path or index, or the root changed (%s)", i, c), XCase{Kind: "c01auth", Cfg: c, Way: way, Idx: i, Salt: "seam"}, "", "")
+				return false
 			}
 			r.Count("seam_signatures", 1)
-			if bytes.Equal(k.GetRoot(), ref.Root) == false {
-				r.Violate("C01/seam-root", "root changed", XCase{Kind: "c01auth", Cfg: c, Way: "sign", Idx: i, Salt: "seam"}, "", "")
-				return
-			}
 			r.Observe(fmt.Sprintf("tau_seen_h%d", c.H), fmt.Sprint(tau(i, c.H)))
+			return true
 		}
-		if !windows {
+		if windows {
+			windowsWalk(n, n-1, one)
+		} else {
+			for i := uint32(0); i < n; i++ {
+				if !one(i, false) {
+					return
+				}
+			}
 			r.Observe("exhaustive_index_configs", c.String()+"/seam-sign")
+		}
+		if r.NViol() > 0 {
+			return
 		}
 		r.Sample(map[string]interface{}{"cfg": c.String(), "mode": mode, "windows": windows, "last_auth_digest": rt.Digest(xmss.VerifAuth(k))})
 	case "seam-step":
@@ -300,14 +306,14 @@ func c01Seam(c XCfg, mode string, j *rt.Job, rng *rt.Rand, r *rt.Rec) {
 			if i > 0 {
 				k.SetIndex(i)
 			}
-			if !assert(k, i, XCase{Way: "step"}) {
+			if !assert(k, i, XCase{Way: "step64", Salt: "seam"}) {
 				return
 			}
 			if i%64 == 63 && i+1 < n {
 				// a real Sign every 64th step (its own copy of the traversal step)
 				sig, err := k.Sign(msgFor(c, i, "seam"))
 				if err != nil || sigIndex(sig) != i || !bytes.Equal(sig[2180:], ref.Auth(i)) {
-					r.Violate(fmt.Sprintf("C01/auth-path-in-sig/h=%d", c.H), fmt.Sprintf("signature at index %d embeds a wrong authentication path or index (%s)", i, c), XCase{Kind: "c01auth", Cfg: c, Way: "step", Idx: i}, "", "")
+					r.Violate(fmt.Sprintf("C01/auth-path-in-sig/h=%d", c.H), fmt.Sprintf("signature at index %d embeds a wrong authentication path or index (%s)", i, c), XCase{Kind: "c01auth", Cfg: c, Way: "step64", Idx: i, Salt: "seam"}, "", "")
 					return
 				}
 				r.Count("seam_signatures", 1)
@@ -401,7 +407,7 @@ func c01Replay(cs map[string]interface{}) (bool, string) {
 			ref := c.Cfg.newRef()
 			got, want := xmss.VerifAuth(k), ref.Auth(c.Idx)
 			viol = !bytes.Equal(got, want) || k.GetIndex() != c.Idx
-			if !viol && (c.Way == "sign" || c.Way == "step") {
+			if !viol && (c.Way == "sign" || c.Way == "step64" || c.Way == "windows") {
 				sig, err := k.Sign(msgFor(c.Cfg, c.Idx, "seam"))
 				viol = err != nil || sigIndex(sig) != c.Idx || !bytes.Equal(sig[2180:], want)
 			}
